@@ -124,6 +124,8 @@ def run(chk):
     rule_ambient(chk, cg, comp, reach)
     rule_hash(chk, reach)
     rule_enum_diagnostics(chk)
+    import c02
+    c02.rule_usage_eval(chk, prefix="C07.usage")       # the usage closure is exact in both hash orders, hence the same in both
 
 
 def rule_ambient(chk, cg, comp, reach):
